@@ -24,7 +24,9 @@ RULE = (
     "node objects holding the *same* data objects under the same data_ids and kinds, same order/shape for deep, a "
     "single childless node for shallow, placed as `before` says, copy()/Node.copy() return a tree of the source's "
     "class) via the independent model; source unchanged (full observation incl. top-level order) after the copy; "
-    "independence: after every later mutation of one side the full observation of the other side is unchanged. "
+    "independence: after every later mutation of one side the full observation of the other side is unchanged. In a "
+    "third of the cross-tree cases the target tree calculates data_ids by another rule than the source tree (a "
+    "calc_data_id callback on one side only): the copies must still carry the source's data_ids. "
     "Non-trivial: copied branch has >= 2 nodes and an explicit id, a clone or a non-default kind; distinct = case."
 )
 ASSUMPTIONS = [
@@ -120,7 +122,17 @@ def run(case, rec):
         rec.nt(len(w_cp.pre) >= 2 and _interesting(w_cp, typed))
     else:
         # copy INTO the target tree (tree 1) FROM the source tree (tree 2): the engine's model decides
-        eng = Engine(case["spec_t"], typed=typed, spec2=case["spec"], fl=fl, known=known)
+        if case.get("mixed"):
+            # the target tree derives data_ids by another rule than the source tree: copies keep the SOURCE's ids
+            from nutree import Tree, TypedTree
+
+            cls = TypedTree if typed else Tree
+            t = cls("T1", calc_data_id=_other_rule) if fl.name == "str" else cls("T1")
+            build(case["spec_t"], flavour=fl, typed=typed, tree=t)
+            eng = Engine(tree=t, typed=typed, spec2=case["spec"], fl=fl, known=known)
+            rec.cls("target-tree-with-another-data_id-rule")
+        else:
+            eng = Engine(case["spec_t"], typed=typed, spec2=case["spec"], fl=fl, known=known)
         src = eng.tree2
         before = snap(src, u)
         out = eng.step(copy, check_unchanged=True)
@@ -160,6 +172,11 @@ def run(case, rec):
         if problems:
             rec.fail(f"independence:{wname}-malformed:{problems[0][0]}", {"op": op})
             return
+
+
+def _other_rule(tree, data):
+    """calc_data_id callback of a target tree (plain data): not hash()."""
+    return ("T", data) if isinstance(data, (str, int)) else hash(data)
 
 
 def _interesting(w, typed):
@@ -241,8 +258,14 @@ def hyp_cases(draw, tier):
     hist = draw(gen_ops.histories(typed=typed, max_ops=12 if tier == "quick" else 25, explicit_ids=explicit,
                                   kinds=["rename" if flavour == "str" else "set_data", "set_data", "add", "remove", "move", "sort", "meta", "clear",
                                          "remove_children", "add_node", "filter", "del"], max_nodes=1))
-    return {"flavour": flavour, "typed": typed, "spec": spec, "spec_t": spec_t, "copy": copy, "side": draw(st.sampled_from(["copy", "source"])),
+    case = {"flavour": flavour, "typed": typed, "spec": spec, "spec_t": spec_t, "copy": copy, "side": draw(st.sampled_from(["copy", "source"])),
             "ops": hist["ops"], "spec_x": hist["spec2"]}
+    if copy[0] not in ("tree.copy", "node.copy") and draw(st.sampled_from([0, 0, 1])):
+        # source and target tree calculate data_ids differently (callback on one side only); the follow-up history
+        # runs on the source side (the engine's model creates new data by the source's rule)
+        case["mixed"] = True
+        case["side"] = "source"
+    return case
 
 
 PARTS = [
